@@ -46,6 +46,45 @@ ALLOW = {
     ('_norm_tzeroes', 'js', "('s.slice()', 'Eq', '0')"): "Python strips the zeros with s.rstrip('0') (a method call, not a comparison)",
     ('_norm_tzeroes', 'js', "('s.slice()', 'Eq', '.')"): "Python tests s.endswith('.') (a method call, not a comparison)",
 }
+# short string constants (<= 3 characters, no format strings; JS regex literals as /source/) that differ by idiom
+ALLOW_STR = {
+    ('format_seconds_as_time', 'js', "'"): 'quote inside the JS error message fragment',
+    ('format_seconds_as_time', 'js', ':'): "JS joins the fields with ':'; Python uses a format string",
+    ('parse_hms', 'py', ':;'): "Python iterates over the string ':;', JS over an object with the two keys",
+    ('parse_hms', 'js', ':'): 'same', ('parse_hms', 'js', ';'): 'same',
+    ('str2num', 'js', '.'): 'JS chooses parseFloat/parseInt by the presence of a point',
+    ('normalize_event_code', 'js', '/\\s/'): "JS removes whitespace with a regex, Python with ''.join(c.split())",
+    ('normalize_event_code', 'js', 'x'): "JS concatenates the relay separator, Python has it inside the format string '%sx%s'",
+    ('_norm_m', 'js', '/[ m]/'): 'JS strips the unit with a regex, Python slices it off',
+    ('_norm_kg', 'py', 'g'): 'unit letters: comparisons in Python, regex classes in JS', ('_norm_kg', 'py', 'k'): 'same',
+    ('_norm_kg', 'js', '/[ g]/'): 'same', ('_norm_kg', 'js', '/[ kK]/'): 'same',
+    ('_norm_g', 'py', 'g'): 'same', ('_norm_g', 'js', '/[ g]/'): 'same',
+    ('TyrvingCalculator.race_points', 'py', ','): 'decimal comma: str.replace in Python, regex in JS',
+    ('TyrvingCalculator.race_points', 'js', '/,/'): 'same', ('TyrvingCalculator.race_points', 'js', '/\\./'): 'count of points via regex',
+    ('qkids_score', 'py', ' '): "blank removal: replace(' ', '') in Python, regex in JS", ('qkids_score', 'js', '/\\s/'): 'same',
+}
+
+
+def py_strs(fn):
+    out = set()
+    for n in ast.walk(fn):
+        if isinstance(n, ast.Constant) and isinstance(n.value, str) and 0 < len(n.value) <= 3 and '%' not in n.value:
+            if isinstance(getattr(n, '_parent', None), ast.Expr):
+                continue
+            out.add(n.value)
+    return out
+
+
+def js_strs(fn):
+    out = set()
+    for n in jsast.jwalk(fn):
+        if n['type'] == 'Literal' and 'regex' in n:
+            out.add('/' + n['regex']['pattern'] + '/')
+        elif n['type'] == 'Literal' and isinstance(n.get('value'), str) and 0 < len(n['value']) <= 3:
+            out.add(n['value'])
+    return out
+
+
 # constants that one side writes inside a string (format spec) and the other as a number
 ALLOW_CONST = {('format_seconds_as_time', 9.0): "'%.9f' in Python, toFixed(9) in JavaScript; equality of the two precisions is rule R4"}
 
@@ -285,7 +324,13 @@ def run(ctx, repo):
             ctx.finding('R3', '%s::%s::constants %s' % (JS[mod], jq, sorted(pc ^ jc)), JS[mod], jsast.line(jfun[mod][jq]),
                         'numeric constants differ between %s (%s) and its port %s (%s)' % (pq, sorted(pc - jc), jq, sorted(jc - pc)),
                         sorted(pc ^ jc))
-        if not res_py and not res_js and pc == jc:
+        ps, js_ = py_strs(pf), js_strs(jfun[mod][jq])
+        sres = sorted(('py', x) for x in ps - js_ if (pq, 'py', x) not in ALLOW_STR) + sorted(('js', x) for x in js_ - ps if (pq, 'js', x) not in ALLOW_STR)
+        if sres:
+            ctx.finding('R3', '%s::%s::string constants %s' % (JS[mod], jq, sres), JS[mod], jsast.line(jfun[mod][jq]),
+                        'the short string constants of %s and its port %s differ: %s (a character set, separator or unit letter was changed '
+                        'on one side only)' % (pq, jq, ', '.join('%s only in %s' % (repr(x), 'Python' if s_ == 'py' else 'JavaScript') for s_, x in sres)), sres)
+        if not res_py and not res_js and pc == jc and not sres:
             ctx.ok('R3', '%s <-> %s: %d predicates, constants %s agree' % (pq, jq, len(pp | jp), sorted(pc)))
     ctx.floor('ported pairs compared', n_pairs, 18)
     # ---- R4 notation taint on the JS twin
